@@ -138,3 +138,62 @@ func GadgetNoiseBound(params rlwe.Parameters, lvl int, key *rlwe.GadgetCiphertex
 	}
 	return sum
 }
+
+// KeyRowNoise is the evaluator-independent functional oracle for a gadget (evaluation) key: every row (b, a) of
+// the key must satisfy  b + a*s_out = P * 2^(w*j) * [residues of RNS group i] * s_in + e  over Q_levelQ * P_levelP,
+// i.e. be an RLWE sample of the gadget multiple of the input secret under the output secret. It returns the
+// largest |e| over all rows (phase over QP with lib/rk, secrets as integer polynomials; s_in may be any integer
+// polynomial, e.g. s^2 for a relinearisation key).
+func KeyRowNoise(params rlwe.Parameters, key *rlwe.GadgetCiphertext, sIn, sOut []*big.Int) *big.Int {
+	rt := params.RingType()
+	levelQ, levelP := key.LevelQ(), key.LevelP()
+	rQP := params.RingQP()
+	moduli := append([]uint64{}, params.Q()[:levelQ+1]...)
+	P := bi(1)
+	if levelP >= 0 {
+		moduli = append(moduli, params.P()[:levelP+1]...)
+		P = ref.Prod(params.P()[:levelP+1])
+	}
+	alpha := levelP + 1
+	if alpha < 1 {
+		alpha = 1
+	}
+	worst := new(big.Int)
+	n := len(sIn)
+	for i := range key.Value {
+		for j := range key.Value[i] {
+			row := key.Value[i][j]
+			ph, QP := rk.PhaseQP(rt, rQP, row[0], row[1], levelQ, levelP, true, true, sOut)
+			// expected: factor * s_in on the residues of group i, zero on every other residue
+			factor := new(big.Int).Lsh(P, uint(key.BaseTwoDecomposition*j))
+			rows := make([][]uint64, len(moduli))
+			for u, q := range moduli {
+				rows[u] = make([]uint64, n)
+				if u > levelQ || u < i*alpha || u >= (i+1)*alpha {
+					continue
+				}
+				f := ref.ModU(factor, q)
+				for c := 0; c < n; c++ {
+					rows[u][c] = ref.MulMod(f, ref.ModU(sIn[c], q), q)
+				}
+			}
+			want := rk.PolyCRT(rows, moduli)
+			for c := 0; c < n; c++ {
+				d := ref.Center(new(big.Int).Mod(new(big.Int).Sub(ph[c], want[c]), QP), QP)
+				if d.Abs(d).Cmp(worst) > 0 {
+					worst.Set(d)
+				}
+			}
+		}
+	}
+	return worst
+}
+
+// SecretInts returns a secret key as centred integer coefficients.
+func SecretInts(params rlwe.Parameters, sk *rlwe.SecretKey) []*big.Int { return rk.Secret(params, sk) }
+
+// RingMul multiplies two integer polynomials in the ring of the parameters; RingAuto applies X -> X^g.
+func RingMul(params rlwe.Parameters, a, b []*big.Int) []*big.Int { return rk.Mul(params.RingType(), a, b) }
+func RingAuto(params rlwe.Parameters, a []*big.Int, g uint64) []*big.Int {
+	return rk.Auto(params.RingType(), a, g)
+}
